@@ -96,7 +96,8 @@ CHECKS = {
         text="Same runs as C13; for every processed sub-segment the recorded in_out, other_in_out, edge type, in_result, result "
              "transition (coincident twins: exactly one carries the boundary with the combined direction) and prev_in_result are "
              "compared with what exact membership of two side points in the operands implies (face bitmasks on complexes, exact "
-             "even-odd on the float table).",
+             "even-odd on the float table); where the nearest lower sub-segment is unique and a result boundary, the recorded "
+             "prev_in_result must be that edge (or the first part of the same edge ending at the point).",
         ref="DESIGN.md 5 (C14)",
         technique="bounded-exhaustive enumeration of real code against a geometric reference classification of every sub-segment"),
     "C15": dict(
